@@ -285,6 +285,9 @@ func c10Weighted(c *C10Case, r *core.Rec) {
 		}
 		prev = got
 	}
+	if iqr, want := s.IQR(), s.Quantile(0.75)-s.Quantile(0.25); !sameF(iqr, want) {
+		r.Fail("weighted-IQR", "xs=%v weights=%v: IQR()=%v, Quantile(0.75)-Quantile(0.25)=%v", trunc(c.Xs), trunc(c.Weights), iqr, want)
+	}
 	if !sx.same(xs) || !sw.same(ws) || s.Sorted {
 		r.Fail("modified", "weighted Quantile modified the sample")
 	}
